@@ -363,6 +363,15 @@ fn cfg() -> GenCfg {
     if pairs.iter().any(|p| p.0 == 'α') {
         pool.push(('α', 'γ'));
     }
+    // beyond the BMP (Deseret: U+10400..U+10427 upper, U+10428..U+1044F lower, contiguous and order-preserving) and Latin-1
+    if pairs.iter().any(|p| p.0 == '𐐨') {
+        pool.push(('𐐨', '𐐪'));
+        pool.push(('𐐀', '𐐂'));
+        pool.push(('𐐁', '𐐧'));
+    }
+    if pairs.iter().any(|p| p.0 == 'à') {
+        pool.push(('à', 'â'));
+    }
     cfg.class.range_pool = pool;
     cfg
 }
